@@ -1172,6 +1172,32 @@ def r14t(ctx, rep, rule="R14t"):
             "Heap::maybe_put leaves a %s value inline, and Vm::eqv has no arm for it: two such values fall through to `false`, so the "
             "value is not eqv? (nor eq?, nor equal?) to itself" % v, [ev.span])
 
+def r14u(ctx, rep, rule="R14u"):
+    """eqv? tells the two zeros apart"""
+    facts = ctx["facts"]
+    rep.rule(rule, "eqv? is finer than =: (eqv? 0.0 -0.0) is #f (R7RS 6.1 — the two print and divide differently) while (= 0.0 -0.0) "
+             "is #t, and equal?, memv, assv, member, assoc and case rest on eqv?. IEEE equality of the two doubles cannot tell "
+             "them apart, so Vm::eqv (or a helper of the compare module it calls) inspects the sign or the bits of a float: a "
+             "call of f64::is_sign_negative / is_sign_positive / to_bits / signum / copysign / total_cmp. "
+             "(case -0.0 ((0.0) 'pos) ((-0.0) 'neg)) was pos.")
+    ev = need(rep, rule, facts, "marwood::vm::compare::<impl marwood::vm::Vm>::eqv")
+    if ev is None:
+        return
+    scope = [ev] + [facts.fns[callee(t)] for bb, t in ev.calls()
+                    if (callee(t) or "").startswith("marwood::vm::compare::") and callee(t) in facts.fns and callee(t) != ev.path]
+    hits = []
+    for g in scope:
+        for bb, t in g.calls():
+            c = (callee(t) or "") + " " + (t.get("fnargs") or "")
+            if re.search(r"f64>?::(is_sign_negative|is_sign_positive|to_bits|signum|copysign|total_cmp)\b", c):
+                hits.append(t["loc"])
+    key = rule + "|eqv|sign-of-zero"
+    (rep.ok if hits else rep.fail)(
+        rule, key, "Vm::eqv inspects the sign / bits of a float (%d call%s)" % (len(hits), "" if len(hits) == 1 else "s") if hits else
+        "Vm::eqv decides two floats by IEEE equality alone: 0.0 and -0.0 are eqv?, so (memv -0.0 '(0.0)) finds 0.0 and the clause "
+        "((-0.0) ..) of a case after ((0.0) ..) is unreachable", hits or [ev.span])
+
+
 def run(ctx, rep):
     r14a(ctx, rep)
     r14b(ctx, rep)
@@ -1190,6 +1216,7 @@ def run(ctx, rep):
     r14r(ctx, rep)
     r14s(ctx, rep)
     r14t(ctx, rep)
+    r14u(ctx, rep)
     from . import popbalance
     popbalance.r_arity_table(ctx, rep, "R14n", R7RS_ARITY_C14, "the list and vector procedures C14 names")
     from .C15 import fresh_results
